@@ -471,7 +471,13 @@ def r9_constraint_scans(chk, prog):
     f = prog.one('celma::prog_args::detail::ConstraintContainer', 'argumentIdentified')
     cfg = f.cfg
     loops = loops_in(f)
-    chk.require(loops, 'argumentIdentified: scan loop not found')
+    if not loops:
+        # the entries for the key are looked up, but only once: the same key can be stored several times (required by
+        # several arguments, or required and excluded)
+        chk.require(any(field_name(object_of(c)) == 'mConstraints' or mentions_field(c, 'mConstraints')
+                        for c in f.calls()), 'argumentIdentified: neither a scan loop nor a lookup in mConstraints')
+        chk.check(False, 'R9', f.name, 'every stored constraint on the identified key is processed', f.loc(),
+                  'the constraints are searched without a loop: at most the first entry for the key is handled')
     for loop in loops:
         off = no_early_exit(f, loop)
         chk.check(not off, 'R9', f.name, 'every stored constraint on the identified key is processed', f.loc(loop),
@@ -520,6 +526,40 @@ def r9_constraint_scans(chk, prog):
     adds = [c for c in f3.calls() if field_name(object_of(c)) == 'mConstraints' and callee_is(c, 'addArgument')]
     chk.check(not off and bool(adds), 'R9', f3.name, 'a constraint is recorded for every listed argument', f3.loc(),
               '; '.join(off) or 'no store into mConstraints')
+    # ... with the kind it was defined with: the entry is built from the kind parameter, the entry's constructor
+    # stores it, and the two constraint classes pass the kind they are named after
+    kind_param = f3.params[0]['name']
+    for c in adds:
+        a = call_args(c)
+        ctor = [x for x in walk(a[0]) if x.get('k') in ('CXXConstructExpr', 'CXXTemporaryObjectExpr') and
+                (x.get('callee') or '').endswith('Data::Data')] if a else []
+        kinds = {y['ref'].get('name') for x in ctor[:1] for y in walk(children(x)[0])
+                 if y.get('k') == 'DeclRefExpr'} if ctor and children(ctor[0]) else set()
+        chk.check(kinds == {kind_param}, 'R9', f3.name, 'the stored entry carries the kind (required / excluded) that was '
+                  'given', f3.loc(c), 'the kind of the entry is built from %s' % (sorted(kinds) or 'a constant'))
+    dctor = [g for g in prog.functions if (g.classq or '').endswith('ConstraintContainer::Data') and g.d.get('ctor')
+             and len(g.params) == 2]
+    chk.require(dctor, 'constructor of ConstraintContainer::Data not found')
+    for g in dctor:
+        ini = {i.get('name'): i.get('init') for i in g.inits}
+        ok = isinstance(ini.get('mConstraint'), dict) and {
+            y['ref'].get('name') for y in walk(ini['mConstraint']) if y.get('k') == 'DeclRefExpr'} == {g.params[0]['name']}
+        chk.check(ok, 'R9', g.name, 'the entry stores the kind it is constructed with', g.loc())
+    producers = {'ConstraintRequires': 'required', 'ConstraintExcludes': 'excluded'}
+    n_prod = 0
+    for g in prog.functions:
+        cls = (g.classq or '').split('::')[-1]
+        if cls not in producers or g.body is None:
+            continue
+        for c in g.calls():
+            if callee_is(c, 'ConstraintContainer::addConstraint'):
+                a = call_args(c)
+                en = {y['ref'].get('name') for y in walk(a[0]) if y.get('k') == 'DeclRefExpr' and
+                      y['ref'].get('dk') == 'EnumConstant'} if a else set()
+                n_prod += 1
+                chk.check(en == {producers[cls]}, 'R9', g.name, '%s records constraints of the kind "%s"' % (
+                    cls, producers[cls]), g.loc(c), 'passes %s' % sorted(en))
+    chk.require(n_prod >= 2, 'constraint classes that record requires/excludes: %d' % n_prod)
 
 
 def r10_value_constraint_scans(chk, prog):
@@ -756,6 +796,29 @@ def r14_level_counter_checks_new_level(chk, prog):
     return n
 
 
+def r15_constraint_registration(chk, prog, rule='R15'):
+    """a handler constraint (all_of / any_of / one_of / value constraints) that is registered has been told that
+    its argument list is final: Handler::addConstraint() stores the object only after validated() - which is what
+    makes all_of build its list of still missing arguments - was called, on every path, unconditionally"""
+    f = prog.one('celma::prog_args::Handler', 'addConstraint', pred=lambda g: len(g.params) == 1)
+    cfg = f.cfg
+    stores = [c for c in f.calls() if field_name(object_of(c)) == 'mGlobalConstraints' and
+              (c.get('callee') or '').split('::')[-1] in ('push_back', 'emplace_back', 'insert')]
+    chk.require(stores, 'addConstraint: store into mGlobalConstraints not found')
+    val = [c for c in f.calls() if callee_is(c, 'validated')]
+    vpos = {cfg.position(c) for c in val}
+    seen = cfg.reach(cfg.entry_pos(), lambda pos, e: pos in vpos)
+    for c in stores:
+        chk.check(bool(val) and cfg.position(c) not in seen, rule, f.name, 'a constraint is registered only after it '
+                  'was told that its argument list is final (validated())', f.loc(c),
+                  'the store is reachable without validated()')
+    # ... and the end conditions of all registered constraints are evaluated (R1 covers the call; here: the list that
+    # is iterated is the list that addConstraint() fills)
+    g = prog.one('celma::prog_args::Handler', 'checkGlobalConstraints')
+    chk.check(any(mentions_field(l, 'mGlobalConstraints') for l in loops_in(g)), rule, g.name,
+              'the end conditions are evaluated for the registered constraints', g.loc())
+
+
 def run(chk):
     prog, units = rules.prog_args_program()
     chk.units = units
@@ -796,5 +859,7 @@ def run(chk):
     c01.r9_value_word_decision(chk, prog, rule='R13')
     chk.rule('R14', 'level counter: the level that is checked is the level that is stored', 3)
     r14_level_counter_checks_new_level(chk, prog)
+    chk.rule('R15', 'handler constraints are registered only after validated()', 2)
+    r15_constraint_registration(chk, prog)
     from . import c02_shapes
     c02_shapes.run(chk, prog)
